@@ -324,7 +324,8 @@ package hackpadfs
 //@   props C08 C05
 //@   requires fs != nil
 //@   modifies world()
-//@   loop 1 invariant "any" fs != nil && rangeindex >= -1 && rangeindex < max(len(dir), 1) && (len(dir) > 0 || rangeindex == -1)
+//@   loop 1 invariant "any" fs != nil && rangeindex >= -1 && rangeindex < max(len(dir), 1) && (len(dir) > 0 || rangeindex == -1) &&
+//@                      (len(dir) > 0 || world() == old(raW2(world(), fs, path))) && dir == old(raList(world(), fs, path))
 //@   loop 1 modifies world()
 //@   ensures "missing" implies(old(raStatErr(world(), fs, path)) != nil && errIs(old(raStatErr(world(), fs, path)), ErrNotExist), err == nil)
 //@   ensures "stat-error" implies(old(raStatErr(world(), fs, path)) != nil && !errIs(old(raStatErr(world(), fs, path)), ErrNotExist), err == old(raStatErr(world(), fs, path)))
